@@ -68,7 +68,7 @@ func feLen(tier string) int {
 }
 
 // feSeparators join lexemes in the adjacency families and token gaps in the layout family.
-var feSeparators = []string{"", " ", "\t", "\n", "/**/", "//\n", "\r\n"}
+var feSeparators = []string{"", " ", "\t", "\n", "/**/", "//\n", "\r\n", "/** c **/", "/***/", "/* a * b */", "/* x */ /* y */", "// c // d\n"}
 
 func sepName(s string) string {
 	switch s {
@@ -86,6 +86,16 @@ func sepName(s string) string {
 		return "block-comment"
 	case "//\n":
 		return "line-comment"
+	case "/** c **/":
+		return "block-comment-double-stars"
+	case "/***/":
+		return "block-comment-three-stars"
+	case "/* a * b */":
+		return "block-comment-inner-star"
+	case "/* x */ /* y */":
+		return "two-block-comments"
+	case "// c // d\n":
+		return "line-comment-with-slashes"
 	}
 	return fmt.Sprintf("%q", s)
 }
